@@ -712,9 +712,7 @@ func (in *Interp) raceCandidates(a *Act) {
 			}
 			queries++
 			in.obligations++
-			if len(in.samples) < 12 {
-				in.samples = append(in.samples, "race: "+label)
-			}
+			in.sample("race", label)
 			if !in.satK("race", x.g, y.g, Not(common)) {
 				in.discharged++
 				continue
